@@ -535,6 +535,27 @@ func (fr *Frame) evalCall(x *ECall, env *Env) Val {
 	case "tvIndex":
 		s, r := arg(0), arg(1)
 		return intVal(lSub(r.C[0], "(* 8 "+s.C[0]+")"))
+	case "arr":
+		// backing array of a string value
+		return Val{K: KInt, C: []string{arg(0).C[0]}}
+	case "sel":
+		return Val{K: KInt, C: []string{sSel(arg(0).C[0], arg(1).C[0])}, Byte: true}
+	case "odd":
+		return boolVal("(= (mod " + arg(0).C[0] + " 2) 1)")
+	case "firstAbs":
+		// firstAbs(a, lo, hi, d): the least absolute index r in [lo,hi) with a[r]==d, or hi.
+		// Introduced by its characterisation, instantiated at each use (such an r exists when lo<=hi).
+		a, lo, hi, d := arg(0).C[0], arg(1).C[0], arg(2).C[0], arg(3).C[0]
+		if !c.ufuns["FIRSTABS"] {
+			c.ufuns["FIRSTABS"] = true
+			c.emit("(declare-fun FIRSTABS ((Array Int Int) Int Int Int) Int)")
+		}
+		r := "(FIRSTABS " + a + " " + lo + " " + hi + " " + d + ")"
+		if env.qdepth == 0 {
+			q := c.fresh("qf")
+			c.assumeOnce("(=> (<= " + lo + " " + hi + ") (and (<= " + lo + " " + r + ") (<= " + r + " " + hi + ") (forall ((" + q + " Int)) (=> (and (<= " + lo + " " + q + ") (< " + q + " " + r + ")) (not (= (select " + a + " " + q + ") " + d + ")))) (=> (< " + r + " " + hi + ") (= (select " + a + " " + r + ") " + d + "))))")
+		}
+		return intVal(r)
 	case "memberOf":
 		// byte c occurs in string set
 		cv, set := arg(0).C[0], arg(1)
@@ -658,6 +679,8 @@ func (fr *Frame) recSpecSym(sp *Spec) (string, []string) {
 		switch p.Type {
 		case "string":
 			sorts = append(sorts, "(Array Int Int)", "Int", "Int")
+		case "array":
+			sorts = append(sorts, "(Array Int Int)")
 		case "bool":
 			sorts = append(sorts, "Bool")
 		default:
